@@ -119,12 +119,22 @@ Builtin(name, args) ==
 \* ---- operators
 DimScale(d, n) == TLCEval([b \in DOMAIN d |-> d[b] * n])
 DimAdd(d, e, n) == TLCEval([b \in DOMAIN d |-> d[b] + n * e[b]])
+\* The tool limits the power of a unit to 2^20 in magnitude and reports an error beyond it (repair 58a1e3a: before it the
+\* 32-bit powers overflowed).  Which units a product carries is left open here, so the outcome is left open as soon as a
+\* base dimension exceeds a quarter of that limit -- below it no unit power can reach the limit.  The guards also keep
+\* TLC's own 32-bit integers from overflowing on towers such as (((x^99)^99)^99)^99.
+PowerLimit == 1048576
+DimLimit == PowerLimit \div 4
+AbsI(x) == IF x < 0 THEN 0 - x ELSE x
+BigDims(d) == \E x \in DOMAIN d : AbsI(d[x]) > DimLimit
+BigAfter(d, n) == n # 0 /\ \E x \in DOMAIN d : AbsI(d[x]) > DimLimit \div AbsI(n)
 ApplyPow(b, e) ==
   IF ~Plain(e) THEN (IF e.free THEN Ood ELSE Err)
   ELSE IF ~Known(e.q) THEN Ood
   ELSE IF ~QIsInt(e.q) THEN Err
   ELSE LET n == e.q[1] IN
        IF n > 99 \/ n < -99 THEN Ood
+       ELSE IF BigAfter(b.dims, n) THEN Ood
        ELSE IF Off(b) /\ ~Temperature THEN Ood
        ELSE LET d == DimScale(b.dims, n)
                 M(x) == IF Off(b) THEN Opt(x) ELSE x IN       \* a power of an offset scale: refused, or an interval
@@ -162,6 +172,7 @@ AddSub(a, b, sgn) ==
 
 MulDiv(a, b, n) ==     \* n = 1: a * b, n = -1: a / b
   IF (Off(a) \/ Off(b)) /\ ~Temperature THEN Ood
+  ELSE IF BigDims(a.dims) \/ BigDims(b.dims) \/ BigDims(DimAdd(a.dims, b.dims, n)) THEN Ood
   ELSE IF n = -1 /\ IsZero(b) THEN Dz
   ELSE LET si == IF n = 1 THEN RMul(a.si, b.si) ELSE RDiv(a.si, b.si)
            q == IF n = 1 THEN QMul(a.q, b.q) ELSE QDiv(a.q, b.q)
